@@ -2,6 +2,8 @@
 
 from __future__ import annotations
 
+import json
+
 import numpy as np
 from hypothesis import strategies as st
 
@@ -181,6 +183,76 @@ def body_dag(data) -> Outcome:
         except Exception as e:
             out.fail(exc_bucket(e, "map-auto_subpipeline-no-names-refused"), f"I={sorted(I3)}: {exc_detail(e)}", {"I": sorted(I3)})
         out.labels.append("auto_subpipeline-without-output_names" + ("-cut" if any(k in sup2 for k in I3) else "-roots"))
+
+    # ---- two selections into ONE run folder (cleanup=False): a first run from the roots, then the same outputs from
+    # the cut.  The second call may refuse (the folder holds a run with other inputs) but must never return what the
+    # first run stored
+    if inter and not out.failures and (data["pick"] >> 9) % 2:
+        roots_all = {r: f"V{r}" for r in m.needed_roots(tuple(S))}
+        folder = boot.fresh_path("c11rf")
+        try:
+            want_root = {s_: m.evaluate(s_, roots_all)[0] for s_ in S}
+            p.map(dict(roots_all), output_names=set(S), run_folder=folder, parallel=False)
+        except Exception:
+            want_root = None
+        if want_root is not None and any(want_root[s_] != want[s_] for s_ in S):
+            units += 1
+            out.labels.append("second-selection-into-the-same-run-folder")
+            try:
+                res = p.map(dict(I), output_names=set(S), auto_subpipeline=True, run_folder=folder, cleanup=False, parallel=False)
+                for s_ in S:
+                    if s_ in res and res[s_].output != want[s_]:
+                        stale = res[s_].output == want_root[s_]
+                        out.fail("run-folder-reuse-" + ("returned-the-previous-run's-value" if stale else "value"),
+                                 f"{s_}: got {res[s_].output!r} want {want[s_]!r} (first run from the roots: {want_root[s_]!r})")
+                        break
+            except ValueError:
+                out.labels.append("second-selection-refused")
+            except Exception as e:
+                out.fail(exc_bucket(e, "run-folder-reuse-raised"), exc_detail(e))
+        boot.rm(folder)
+
+    # ---- the same request again after the pipeline was changed in place (a bound value set through a function handle)
+    if not out.failures and (data["pick"] >> 10) % 2:
+        # (a root without any default: binding a defaulted root would move the request into the domain of the recorded
+        # finding "default declared outside the cone")
+        def free_roots(f):
+            return [q for q in m.funcs[f]["params"] if q not in m.funcs[f]["bound"] and q not in m.producer and q not in m.defaults]
+
+        cone_fs = [f for f in cone_after_cut if free_roots(f)]
+        if cone_fs:
+            f = cone_fs[(data["pick"] >> 11) % len(cone_fs)]
+            cands = free_roots(f)
+            q = cands[(data["pick"] >> 13) % len(cands)]
+            prog2 = json.loads(json.dumps(prog))
+            for fn in prog2["funcs"]:
+                if fn["name"] == f:
+                    fn["bound"][q] = "Bnew"
+            m2 = DagModel(prog2)
+            try:
+                p[m.funcs[f]["outs"][0]].update_bound({q: "Bnew"})
+                need2 = set(m2.needed_roots(tuple(S), tuple(cut_outs)))
+                I4 = {k: v for k, v in I.items() if k in need2 or k in supplied_all}
+                want4 = {s_: m2.evaluate(s_, I4)[0] for s_ in S}
+            except Exception:
+                want4 = None
+            if want4 is not None:
+                units += 1
+                out.labels.append("same-request-after-update_bound")
+                try:
+                    res = p.map(dict(I4), output_names=set(S), auto_subpipeline=True, **kw)
+                    for s_ in S:
+                        if s_ not in res or res[s_].output != want4[s_]:
+                            out.fail("request-after-update_bound-value", f"{s_}: got {res[s_].output if s_ in res else None!r} want {want4[s_]!r}")
+                            break
+                except Exception as e:
+                    out.fail(exc_bucket(e, "request-after-update_bound-refused"), f"S={S} I={sorted(I4)} bound {q} of {f}: {exc_detail(e)}")
+            return_after_mutation = True
+        else:
+            return_after_mutation = False
+        if return_after_mutation:
+            out.units = units
+            return out  # `p` is no longer the pipeline of `prog`
 
     # ---- not computable: remove one required root -----------------------------------------------------
     required = [r for r in roots_needed if r in I and r not in m.defaults]
